@@ -126,7 +126,7 @@ def ackEncode (pk : Packet) : Enc :=
   let nb := encodeUint16 pk.packetID
   let body := if pk.protocolVersion == 5 then
       let pb := propsEncode pk.fixedHeader.type pk.mods nb.length pk.properties
-      nb ++ (if pk.reasonCode ≥ 0x80 || pb.length > 1 then [pk.reasonCode % 256] else []) ++
+      nb ++ (if pk.reasonCode != 0 || pb.length > 1 then [pk.reasonCode % 256] else []) ++
         (if pb.length > 1 then pb else [])
     else nb
   .ok (withHeader pk body)
